@@ -34,10 +34,11 @@ Proof.
   cbn [seq_accept] in Ha. unfold model_step in Ha.
   destruct (do_op c g (st_op s) (st_faults s)) as [[g' evs] r] eqn:Ed.
   apply andb_prop in Ha as [Ha Hrest]. apply andb_prop in Ha as [Hmem Heq].
-  apply sobs_eqb_eq in Heq. apply mem_In in Hmem.
+  destruct (sobs_match_eq _ _ _ Heq) as (He & _ & Hca & Hst & Hres). cbn [ob_events ob_res ob_cache ob_store] in He, Hca, Hst, Hres.
+  apply mem_In in Hmem.
   destruct (do_op_spec _ _ _ _ _ _ _ Hg Ed) as (B1 & B2 & B3 & B4 & B5 & B6 & B7 & B8).
-  cbn [seq_holds]. apply andb_true_intro. split; [|rewrite <- Heq; cbn [ob_cache ob_store]; apply IH; assumption].
-  unfold step_holds. rewrite <- Heq. cbn [ob_events ob_res ob_cache ob_store ob_worker].
+  cbn [seq_holds]. apply andb_true_intro. split; [|rewrite Hca, Hst; apply IH; assumption].
+  unfold step_holds. rewrite He, Hca, Hst.
   set (k := key_of (st_op s)) in *.
   repeat (apply andb_true_intro; split).
   - apply forallb_project. apply (Forall_forallb _ _ _ (fun e H => proj2 (Z.eqb_eq _ _) H) B3).
@@ -47,18 +48,21 @@ Proof.
     destruct B1 as [B1 _]. apply (B1 (loc_of c x)). exact Hx.
   - apply forallb_project. unfold snap_store. rewrite at_key_map by exact Hmem.
     apply (Forall_forallb _ _ _ (pre_good_ok _) B4).
-  - destruct (is_dup r) eqn:Edup; [|reflexivity].
+  - destruct Hres as [-> | ->]; [|reflexivity]. destruct (is_dup r) eqn:Edup; [|reflexivity].
     unfold no_store_ev. apply forallb_project. apply B5. destruct r; try discriminate. destruct e; try discriminate. reflexivity.
   - destruct (st_op s) as [k0|k0 d0|k0 d0|k0|k0 d0|k0 d0|k0 d0] eqn:Eo; try reflexivity; cbn [key_of] in k; subst k.
-    + (* get *) destruct r as [v| | | |]; try reflexivity. rewrite existsb_load_project.
+    + (* get *) destruct Hres as [-> | ->]; [|reflexivity]. destruct r as [v| | | |]; try reflexivity. rewrite existsb_load_project.
       destruct (existsb is_load evs) eqn:El; [reflexivity|]. unfold snap_store. rewrite at_key_map by exact Hmem.
       rewrite (B8 k0 v eq_refl eq_refl eq_refl). apply oz_eqb_refl.
     + (* add *) destruct l; [reflexivity|]. cbn [snap_cache]. rewrite at_key_map by exact Hmem.
       destruct (cache_at c g k0) as [v|] eqn:Ec; [|reflexivity].
-      destruct (B7 k0 d0 v eq_refl Ec) as (-> & Hn & Hst). cbn [is_dup andb].
+      destruct (B7 k0 d0 v eq_refl Ec) as (Hr & Hn & Hst').
+      assert (Hd : (is_dup (ob_res (st_obs s)) || is_ctx (ob_res (st_obs s))) = true).
+      { destruct Hres as [-> | ->]; [rewrite Hr; reflexivity | reflexivity]. }
+      rewrite Hd. cbn [andb].
       unfold no_store_ev in *. rewrite (forallb_project _ _ Hn). cbn [andb]. unfold snap_store. rewrite !at_key_map by exact Hmem.
-      rewrite Hst. apply oz_eqb_refl.
-    + (* delete *) destruct r; try reflexivity. destruct l; [reflexivity|]. cbn [snap_cache]. rewrite at_key_map by exact Hmem.
+      rewrite Hst'. apply oz_eqb_refl.
+    + (* delete *) destruct Hres as [-> | ->]; [|reflexivity]. destruct r; try reflexivity. destruct l; [reflexivity|]. cbn [snap_cache]. rewrite at_key_map by exact Hmem.
       destruct (B6 eq_refl) as [-> _]. reflexivity.
 Qed.
 
@@ -67,7 +71,7 @@ Proof.
   intros [l cfg univ steps|cfg deep univ items]; cbn [case_accept case_holds]; intros Ha;
     [|eapply conc_sound; exact Ha].
   pose proof (seq_sound l cfg univ steps (ginit cfg) (ginit_ok cfg) Ha) as H.
-  replace (snap_cache l cfg (ginit cfg) univ) with (match l with ObsStore => [] | ObsAll => map (fun _ : Z => @None Z) univ end) in H
+  replace (snap_cache l cfg (ginit cfg) univ) with (match l with ObsStore => [] | ObsAll => map (fun _ : Z => @None (option Z)) univ end) in H
     by (destruct l; reflexivity).
   exact H.
 Qed.
